@@ -80,7 +80,31 @@ def _views(ctx, fmt, be, desc, dense_ref, absb, nterms, eps, to_tensor, to_unfol
             ok, worst = tol.formula_close(u, ref.unfold(dense_ref, mode), ref.unfold(absb, mode), eps, nterms)
             if not ok:
                 bad("unfolded", "mode-%d unfolding differs from the unfolding of the dense tensor (err/bound %.3g)" % (mode, worst), u)
+        # the same modes counted from the end (as unfold itself accepts them): one of them per call, in rotation
+        nd_ = dense_ref.ndim
+        if nd_ >= 2:
+            _NEG_TURN[0] += 1
+            mneg = -1 - (_NEG_TURN[0] % nd_)
+            ctx.count("clause/unfolded-negative-mode")
+            try:
+                u = to_unfolded(mneg)
+            except (ValueError, IndexError, TypeError) as e:
+                ctx.violation("C03:%s:unfolded-negative-mode-raises-%s:%s%s" % (fmt, type(e).__name__, cls, key_extra), "%s (%s backend): unfolding along mode %d raised %s: %s" % (
+                    fmt, be, mneg, type(e).__name__, str(e)[:120]), {"desc": desc, "backend": be})
+                return True
+            want_u, want_a = ref.unfold(dense_ref, mneg % nd_), ref.unfold(absb, mneg % nd_)
+            if np.shape(u) != want_u.shape:
+                ctx.violation("C03:%s:unfolded-negative-mode:%s%s" % (fmt, cls, key_extra), "%s (%s backend): unfolding along mode %d has shape %s, the mode-%d unfolding of the dense tensor %s" % (
+                    fmt, be, mneg, np.shape(u), mneg % nd_, want_u.shape), {"desc": desc, "backend": be})
+                return True
+            ok, worst = tol.formula_close(u, want_u, want_a, eps, nterms)
+            if not ok:
+                ctx.violation("C03:%s:unfolded-negative-mode:%s%s" % (fmt, cls, key_extra), "%s (%s backend): unfolding along mode %d differs from the mode-%d unfolding of the dense tensor (err/bound %.3g)" % (
+                    fmt, be, mneg, mneg % nd_, worst), {"desc": desc, "backend": be})
     return True
+
+
+_NEG_TURN = [0]
 
 
 def run_case(case, ctx):
